@@ -21,6 +21,16 @@ class CallMixin:
     # ------------------------------------------------------------------ attributes
     def ex_Attribute(self, e, st, fx):
         out = []
+        if isinstance(e.value, ast.Call) and isinstance(e.value.func, ast.Name) and e.value.func.id == 'super' \
+                and not e.value.args:
+            cls = fx.fi.cls
+            selfv = st.locals.get(fx.fi.params[0])
+            m = (selfv.cls if isinstance(selfv, SObj) else cls).lookup(e.attr, after=cls)
+            if m is None:
+                raise ToolLimit('super().%s not found' % e.attr)
+            if m.is_property:
+                return self.call_function(m, [selfv], {}, st)
+            return [(st, SFunc(m, self_val=selfv))]
         for s, o in self.eval(e.value, st, fx):
             if isinstance(o, Raised):
                 out.append((s, o))
@@ -228,6 +238,8 @@ class CallMixin:
                 d = fi.defaults[p]
                 if isinstance(d, ast.Constant):
                     bound[p] = self.ex_Constant(d, st, None)[0][1]
+                elif isinstance(d, ast.Name):
+                    bound[p] = self.global_name(d.id, fi.module)
                 else:
                     raise ToolLimit('non-constant default')
             else:
